@@ -563,6 +563,21 @@ def main(modname, argv):
         if hasattr(check, 'pinned_cases'):
             for _name, case in check.pinned_cases():
                 _safe_execute(check, case, stats)
+        # then the committed replay files of this property: minimised inputs of earlier failures (repaired defects,
+        # corrected oracles), a seconds-long regression tier
+        import glob
+        for path in sorted(glob.glob(os.path.join(VERIF, 'replays', '%s-*.json' % prop))):
+            try:
+                with open(path) as infile:
+                    case = json.load(infile)['case']
+                outcome = check.execute(copy.deepcopy(case))
+            except HarnessError:
+                raise
+            except Exception as err:    # a case written for an older form of the generator
+                stats.notes.append('replay %s not executable any more (%s: %s)' % (os.path.basename(path), type(err).__name__, str(err)[:80]))
+                continue
+            stats.record(case, outcome)
+            stats.counters['regression_replays'] = stats.counters.get('regression_replays', 0) + 1
         stats.merge(explore(check, args.tier, seed_value).export())
         if stats.errors:
             sys.stderr.write('harness errors (first): %s\n' % stats.errors[0])
